@@ -178,7 +178,7 @@ func init() {
 				defer conn.Close()
 				o.Count("transport:" + f[1])
 				var tcConn *tls.Conn
-				if f[1] == "tunnel" || f[1] == "tunnel2" || f[1] == "tunnel3" {
+				if f[1] == "tunnel" || f[1] == "tunnel2" || f[1] == "tunnel3" || f[1] == "tunnelhist" {
 					fmt.Fprintf(conn, "CONNECT %s HTTP/1.1\r\nHost: %s\r\n\r\n", s.ohost, s.ohost)
 					br := bufio.NewReader(conn)
 					resp, err := http.ReadResponse(br, nil)
@@ -192,6 +192,29 @@ func init() {
 						return "handshake-failed"
 					}
 					tcConn = tc
+					if f[1] == "tunnelhist" {
+						// MANY exchanges on one tunnel (k requests, each with `pad` KiB of header fields): however many requests the
+						// tunnel has carried and however large their heads were, each gets the answer to ITS OWN request
+						var k, pad int
+						fmt.Sscanf(head, "%d %d", &k, &pad)
+						tcr := bufio.NewReader(tc)
+						padding := strings.Repeat("p", pad*1024)
+						for i := 0; i < k; i++ {
+							tc.SetDeadline(time.Now().Add(8 * time.Second))
+							fmt.Fprintf(tc, "GET /hist-%d HTTP/1.1\r\nHost: %s\r\nX-Pad: %s\r\n\r\n", i, s.ohost, padding)
+							resp, err := http.ReadResponse(tcr, nil)
+							if err != nil {
+								return fmt.Sprintf("exchange %d of %d: no response (%s)", i, k, errClass(err))
+							}
+							b, _ := io.ReadAll(resp.Body)
+							resp.Body.Close()
+							if resp.StatusCode != 200 || string(b) != fmt.Sprintf("origin-body:/hist-%d", i) {
+								return fmt.Sprintf("exchange %d of %d: other-answer(%d:%q)", i, k, resp.StatusCode, truncStr(string(b), 40))
+							}
+						}
+						o.Count("tunnelhist")
+						return "all-own-answers"
+					}
 					tc.Write([]byte(head))
 					if f[1] == "tunnel" {
 						r := rrClassify(bufio.NewReader(tc), tc)
@@ -332,6 +355,10 @@ func init() {
 						q2 = r.Pick([]string{strings.Replace(q1, ";", "&", 1), strings.Replace(q1, "&", ";", 1), strings.Replace(q1, "%3B", ";", 1), strings.Replace(q1, "+", "%20", 1), q1 + "&", "&" + q1})
 					}
 					emit("rr", "qpair", hx(q1+fmt.Sprintf("&n=%d", i)), hx(q2+fmt.Sprintf("&n=%d", i)))
+				}
+				if i%50 == 11 {
+					kp := [][2]int{{6, 300}, {40, 40}, {400, 3}, {1500, 0}}[r.Intn(4)]
+					emit("rr", "tunnelhist", hx(fmt.Sprintf("%d %d", kp[0], kp[1])))
 				}
 				if i%25 == 7 {
 					p := r.Pick([]string{"/trunc-cl", "/trunc-chunked", "/trunc-cl-nostore", "/trunc-chunked-nostore"})
